@@ -13,6 +13,7 @@ RULES = {
     "U3": "amend: returns Ok(Some(a)) where a is the very value pushed; the pushed value is the removed order with its quantity rewritten by the update's own quantity; no removal is recorded in the statistics",
     "U4": "with_reduced_quantity agrees with the reference: displayed := argument for Standard, PostOnly, IcebergOrder; unchanged otherwise; hidden and every identity field copied",
     "U5": "only it: a removal path touches the queue exactly once (the remove); an amend path exactly lookup(s) of the same id, one remove, one push",
+    "U6": "only it / not-found: the queue stores and finds orders under their own OrderId (push inserts under order.id(); remove and find use the id they are given on the same map), pop and remove hand out their own map removal, and no other function - in particular no listing or other read-only API - touches the map or the tickets",
     "U0": "coverage: all five OrderUpdate variants analysed with their expected outcomes",
 }
 
@@ -93,6 +94,12 @@ def _run(ctx, chk):
     for f in L.level_adt["variants"][0]["fields"]:
         chk.require(f["vis"] != "pub", "U1", "PriceLevel.%s:private" % f["name"], L.level_adt["span"], "field %s of PriceLevel is pub: the closed-world argument fails" % f["name"])
 
+    # ---------------- U6
+    Q6 = QueueAnalysis(ctx)
+    Q6.rule_push(chk, "U6", "U6")
+    Q6.rule_remove_find(chk, "U6")
+    Q6.rule_pop(chk, "U6", "U6", "U6", seq=True)
+    Q6.who_may(chk, "U6")
     # ---------------- U2 / U5
     seen = LR.rule_removal_returns(ctx, chk, L, "U2", "U2", seq=True)
     b, res, _ = L.paths("update_order")
